@@ -237,11 +237,16 @@ def post_check(pid, tier, reports, seed):
             (r['family'] in (QUICK_O_FAMILIES if tier == 'quick' else THOROUGH_O_FAMILIES))]
     if not fams:
         return {'families': 0}, []
+    # second configuration: assertions off AND another string-hash seed (the first exploration
+    # runs with PYTHONHASHSEED=0 unless the caller chose one, see run.sh)
     env = dict(os.environ)
+    env['PYTHONHASHSEED'] = '4242' if env.get('PYTHONHASHSEED', '0') != '4242' else '17'
     cmd = [sys.executable, '-O', '-m', 'sxv.cli', 'digests', pid, tier, out] + fams
     r = subprocess.run(cmd, cwd=here, env=env, capture_output=True, text=True)
     problems = []
-    info = {'families': len(fams), 'paths_compared': 0, 'cmd': ' '.join(cmd[1:])}
+    info = {'families': len(fams), 'paths_compared': 0, 'cmd': ' '.join(cmd[1:]),
+            'configuration_A': 'python, PYTHONHASHSEED=%s' % os.environ.get('PYTHONHASHSEED', '0'),
+            'configuration_B': 'python -O, PYTHONHASHSEED=%s' % env['PYTHONHASHSEED']}
     if r.returncode == 3:
         info['note'] = 'the -O exploration was not exhaustive within its budget: not compared'
         return info, problems
